@@ -455,3 +455,350 @@ def rng_stop(p, res):
     res.stats['callbacks'] = len(cbs)
     res.stats['stop_exits'] = total
     res.require_floor(13)
+
+
+# ------------------------------------------------------------ RNG-SCANSTATE
+class ScanStateClient(PathClient):
+    """predicate abstraction of css_matcher.scan.scan: each ScanState position field is abstracted to
+    NEG (== -1, nothing recorded) or NN (>= 0).  Tests of the fields are evaluated exactly on the abstract value."""
+    FIELDS = ('start', 'end', 'property_start', 'property_end', 'property_delimiter')
+
+    def __init__(self, p, f, sv='state'):
+        super().__init__(p, f)
+        self.sv = sv
+        self.notifies = {}
+        self.sentinel_types = set()
+
+    def fld(self, s, name):
+        return s.get(('fld', name))
+
+    def absval(self, s, e):
+        """abstract value of an integer expression: 'NEG' | 'NN' | None"""
+        if isinstance(e, ast.Attribute) and isinstance(e.value, ast.Name) and e.value.id == self.sv and e.attr in self.FIELDS:
+            return self.fld(s, e.attr)
+        c = self.p.try_const(self.f, e)
+        if isinstance(c, int) and not isinstance(c, bool):
+            return 'NEG' if c == -1 else ('NN' if c >= 0 else None)
+        if isinstance(e, ast.Attribute) and isinstance(e.value, ast.Name) and e.value.id == 'scanner' and e.attr in ('pos', 'start'):
+            return 'NN'
+        if isinstance(e, ast.BinOp) and isinstance(e.op, ast.Add):
+            a, b = self.absval(s, e.left), self.absval(s, e.right)
+            cb = self.p.try_const(self.f, e.right)
+            if a in ('NEG', 'NN') and isinstance(cb, int) and cb >= 1:
+                return 'NN'
+            if a == 'NN' and b == 'NN':
+                return 'NN'
+        if isinstance(e, ast.BinOp) and isinstance(e.op, ast.Sub):
+            # scanner.pos - 1 right after a successful eat: >= 0
+            if src_of(e) == 'scanner.pos - 1':
+                return 'NN'
+        return None
+
+    def atom(self, it, s, expr):
+        if isinstance(expr, ast.Compare) and len(expr.ops) == 1:
+            a, b, op = expr.left, expr.comparators[0], expr.ops[0]
+            for x, y in ((a, b), (b, a)):
+                cy = self.p.try_const(self.f, y)
+                if cy == -1 and isinstance(op, (ast.Eq, ast.NotEq)):
+                    v = self.absval(s, x)
+                    if v in ('NEG', 'NN'):
+                        is_neg = v == 'NEG'
+                        truth = is_neg if isinstance(op, ast.Eq) else not is_neg
+                        return ([s], []) if truth else ([], [s])
+                    if v is None and isinstance(x, ast.Attribute) and x.attr in self.FIELDS:
+                        raise AnalysisError('RNG-SCANSTATE: field %s has no abstract value' % x.attr)
+        if self.is_pure(expr) and not (isinstance(expr, ast.Name) and expr.id in ('block_end',)) and 'state.expression' not in src_of(expr):
+            return [s], [s]
+        return super().atom(it, s, expr)
+
+    def on_store(self, it, s, target, value, stmt):
+        if isinstance(target, ast.Attribute) and isinstance(target.value, ast.Name) and target.value.id == self.sv and target.attr in self.FIELDS:
+            v = self.absval(s, value) if not isinstance(value, tuple) else None
+            if v is None:
+                raise AnalysisError('RNG-SCANSTATE: cannot abstract the value stored by `%s`' % src_of(stmt))
+            return s.set(('fld', target.attr), v)
+        if isinstance(target, ast.Name) and target.id == self.sv:
+            for fl in self.FIELDS:
+                s = s.set(('fld', fl), 'NEG')
+        return s
+
+    def on_call(self, it, s, call):
+        fn = call.func
+        if isinstance(fn, ast.Attribute) and src_of(fn) == '%s.reset' % self.sv:
+            for fl in self.FIELDS:
+                s = s.set(('fld', fl), 'NEG')
+            return s
+        if isinstance(fn, ast.Name) and fn.id == 'notify':
+            args = list(call.args)
+            ttype = src_of(args[0]) if args else '?'
+            delim = self.absval(s, args[1]) if len(args) > 1 else 'NN'        # default: scanner.start
+            start = self.absval(s, args[2]) if len(args) > 2 else self.fld(s, 'start')
+            end = self.absval(s, args[3]) if len(args) > 3 else self.fld(s, 'end')
+            types = [src_of(args[0].body), src_of(args[0].orelse)] if args and isinstance(args[0], ast.IfExp) else [ttype]
+            key = (src_of(call), call.lineno)
+            rec = self.notifies.setdefault(key, {'node': call, 'ok': 0, 'bad': None})
+            if start != 'NN' or end != 'NN':
+                what = 'start' if start != 'NN' else 'end'
+                if rec['bad'] is None:
+                    rec['bad'] = (what, s)
+            else:
+                rec['ok'] += 1
+            if delim == 'NEG':
+                for t in types:
+                    self.sentinel_types.add(t)
+            self.n_events += 1
+        return s
+
+
+@rule('RNG-SCANSTATE', 'D', 'css scan(): on every path the start and end handed to the callback are real offsets (>= 0), never the -1 "nothing recorded" sentinel')
+def rng_scanstate(p, res):
+    f = p.func('css_matcher.scan.scan')
+    ss = p.cls('css_matcher.scan.ScanState')
+    init = ss.methods['__init__']
+    for fl in ScanStateClient.FIELDS:
+        if ('self.%s = -1' % fl) not in src_of(init.node):
+            raise AnalysisError('RNG-SCANSTATE: ScanState.%s no longer starts at -1' % fl)
+    rs = ss.methods.get('reset')
+    if rs is None or src_of(rs.node.body[-1]) != 'self.start = self.end = self.property_start = self.property_end = self.property_delimiter = -1':
+        raise AnalysisError('RNG-SCANSTATE: ScanState.reset() no longer resets all five fields to -1')
+    c = ScanStateClient(p, f)
+    explore(p, f, c)
+    if len(c.notifies) < 6:
+        raise AnalysisError('RNG-SCANSTATE: only %d notify sites explored' % len(c.notifies))
+    for (src, ln), rec in sorted(c.notifies.items(), key=lambda kv: kv[0][1]):
+        if rec['bad'] is not None:
+            what, s = rec['bad']
+            vals = {fl: s.get(('fld', fl)) for fl in ScanStateClient.FIELDS}
+            res.bad(F('RNG-SCANSTATE', f, rec['node'], src, 'a path reaches this notify with %s still -1 (abstract state %s): the callback receives a range with a missing %s'
+                      % (what, vals, what), details=['path : ' + s.show_trace()], failing_input="css scan('a:{') / scan('a{b: :c;}')"))
+        else:
+            res.ok('%s: start/end >= 0 in all %d abstract states' % (src, rec['ok']))
+    res.stats['token_types_with_sentinel_delimiter'] = sorted(c.sentinel_types)
+    res.require_floor(6)
+
+
+# ----------------------------------------------------------- PATH-INITORDER
+@rule('PATH-INITORDER', 'N', 'a field of a freshly built node is not consulted before the statement that fills it')
+def path_initorder(p, res):
+    n_sites = 0
+    for f in sorted(p.funcs.values(), key=lambda x: x.qualname):
+        # locals bound once to a constructor call
+        fresh = {}
+        for n in f.body_nodes():
+            if isinstance(n, ast.Assign) and len(n.targets) == 1 and isinstance(n.targets[0], ast.Name) and isinstance(n.value, ast.Call) \
+                    and isinstance(p.resolve_call(f, n.value), Class):
+                fresh.setdefault(n.targets[0].id, []).append(n)
+        fresh = {k: v[0] for k, v in fresh.items() if len(v) == 1 and len(p.local_assignments(f, k)) == 1}
+        if not fresh:
+            continue
+        pm = p.parents(f)
+        for var, ctor in fresh.items():
+            stores = {}
+            for n in f.body_nodes():
+                if isinstance(n, (ast.Assign, ast.AugAssign)):
+                    for t in (n.targets if isinstance(n, ast.Assign) else [n.target]):
+                        if isinstance(t, ast.Attribute) and isinstance(t.value, ast.Name) and t.value.id == var:
+                            stores.setdefault(t.attr, []).append(n)
+            for fld, sts in stores.items():
+                first = min(sts, key=lambda x: x.lineno)
+                # loops: a read in an earlier iteration-position is legitimate (accumulators); only straight-line order is judged
+                def in_loop(x):
+                    q = pm.get(x)
+                    while q is not None:
+                        if isinstance(q, (ast.While, ast.For)):
+                            return True
+                        q = pm.get(q)
+                    return False
+                if in_loop(first):
+                    continue
+                for n in f.body_nodes():
+                    if isinstance(n, ast.Attribute) and isinstance(n.ctx, ast.Load) and isinstance(n.value, ast.Name) and n.value.id == var and n.attr == fld:
+                        if n.lineno >= first.lineno or n.lineno <= ctor.lineno:
+                            continue
+                        # reads inside the test that guards the store are the "set if unset" idiom
+                        q = first
+                        guards = []
+                        while q is not None:
+                            par = pm.get(q)
+                            if isinstance(par, ast.If):
+                                guards.append(par.test)
+                            q = par
+                        if any(any(x is n for x in ast.walk(g)) for g in guards):
+                            continue
+                        # AugAssign accumulators read themselves
+                        n_sites += 1
+                        st = p.enclosing_stmt(f, n)
+                        res.bad(F('PATH-INITORDER', f, n, src_of(st).split('\n')[0],
+                                  '`%s.%s` is read here but only filled further down (line %d: `%s`): at this point it still has the value the constructor gave it'
+                                  % (var, fld, first.lineno, src_of(first).split('\n')[0])))
+                n_sites += 1
+        res.ok('%s: fields of %s read only after they are filled' % (f.short, ', '.join(sorted(fresh))) if len(res.samples) < 5 else None)
+    res.stats['fresh_object_fields_with_later_stores'] = n_sites
+    res.require_floor(25)
+
+
+# ---------------------------------------------------------- PATH-PARSER-CTX
+@rule('PATH-PARSER-CTX', 'N', 'parser statements(): append once, descend on >, stay on +, climb on ^ only while the stack is non-empty')
+def path_parser_ctx(p, res):
+    from ..pattern import find_stmt, match_stmt, find_expr
+    f = p.func('abbreviation.parser.statements')
+    loops = [n for n in f.node.body if isinstance(n, ast.While)]
+    if len(loops) != 1:
+        raise AnalysisError('PATH-PARSER-CTX: statements() has %d top-level loops' % len(loops))
+    lp = loops[0]
+    # the element is appended exactly once, to the current context, right after it was parsed
+    apps = find_expr('$ctx.elements.append($node)', lp)
+    if len(apps) == 1:
+        b = apps[0][1]
+        ctx, node = src_of(b['ctx']), src_of(b['node'])
+        res.ok('%s.elements.append(%s) once per iteration' % (ctx, node))
+    else:
+        res.bad(F('PATH-PARSER-CTX', f, lp, 'ctx.elements.append(node)', 'every parsed element must be appended to the current context exactly once (%d append sites)' % len(apps)))
+        return
+    # child operator: push the context, descend
+    child = [n for n in ast.walk(lp) if isinstance(n, ast.If) and 'is_child_operator' in src_of(n.test)]
+    okc = len(child) == 1 and [src_of(x) for x in child[0].body] == ['stack.append(%s)' % ctx, '%s = %s' % (ctx, node)]
+    if okc:
+        res.ok('>: stack.append(ctx); ctx = node')
+    else:
+        res.bad(F('PATH-PARSER-CTX', f, child[0] if child else lp, ' ; '.join(src_of(x) for x in child[0].body) if child else '?',
+                  'after > the current context is pushed and the new element becomes the context'))
+    sib = [n for n in ast.walk(lp) if isinstance(n, ast.If) and 'is_sibling_operator' in src_of(n.test)]
+    oks = len(sib) == 1 and [src_of(x) for x in sib[0].body] == ['continue']
+    if oks:
+        res.ok('+: context unchanged')
+    else:
+        res.bad(F('PATH-PARSER-CTX', f, sib[0] if sib else lp, ' ; '.join(src_of(x) for x in sib[0].body) if sib else '?', 'after + neither the stack nor the context changes'))
+    climb = [n for n in ast.walk(lp) if isinstance(n, ast.While) and n is not lp and 'is_climb_operator' in src_of(n.test)]
+    okk = len(climb) == 1 and len(climb[0].body) == 1 and isinstance(climb[0].body[0], ast.If) \
+        and src_of(climb[0].body[0].test) in ('len(stack)', 'stack', 'len(stack) > 0') and [src_of(x) for x in climb[0].body[0].body] == ['%s = stack.pop()' % ctx]
+    if okk:
+        res.ok('^: one pop per ^, only while the stack is non-empty (stops at the top level)')
+    else:
+        res.bad(F('PATH-PARSER-CTX', f, climb[0] if climb else lp, src_of(climb[0]).replace('\n', ' ; ') if climb else '?',
+                  'each ^ pops one context and must be guarded by a non-empty stack (climbing stops at the top level)'))
+    # no other writes to ctx / stack
+    others = [n for n in ast.walk(lp) if isinstance(n, ast.Assign) and src_of(n.targets[0]) == ctx]
+    if len(others) == 2:
+        res.ok('ctx is assigned only on the > and ^ edges')
+    else:
+        res.bad(F('PATH-PARSER-CTX', f, lp, 'assignments to %s' % ctx, 'the context may only change on > and ^ (%d assignment sites)' % len(others)))
+    # group(): a group is closed by ) and takes a repeater only then
+    g = p.func('abbreviation.parser.group')
+    s = src_of(g.node)
+    if "if scanner.consume(is_group_start):\n        result = statements(scanner, options)\n        token = scanner.next()\n        if is_bracket(token, 'group', False):\n            result.repeat = repeater(scanner)\n        return result" in s:
+        res.ok('group(): ( statements ) repeater?')
+    else:
+        res.bad(F('PATH-PARSER-CTX', g, g.node, 'group() body', 'a group is `(` statements `)` followed by an optional repeater'))
+    res.require_floor(6)
+
+
+# ---------------------------------------------------------------- PATH-ONCE
+@rule('PATH-ONCE', 'N', 'converter loops visit every written element once, in order, and attach copies in order')
+def path_once(p, res):
+    ce = p.func('abbreviation.convert.convert_element')
+    s = src_of(ce.node)
+    if 'for child in node.elements:\n        elem.children += convert_statement(child, state)' in s:
+        res.ok('convert_element: children converted in order, once')
+    else:
+        res.bad(F('PATH-ONCE', ce, ce.node, 'child loop of convert_element', 'every child must be converted once, in order, and appended to elem.children'))
+    if 'elem.attributes = [convert_attribute(attr, state) for attr in node.attributes]' in s:
+        res.ok('convert_element: attributes converted in order')
+    else:
+        res.bad(F('PATH-ONCE', ce, ce.node, 'attribute conversion of convert_element', 'attributes must be converted one to one, in order'))
+    cg = p.func('abbreviation.convert.convert_group')
+    s = src_of(cg.node)
+    if 'for child in node.elements:\n        result += convert_statement(child, state)' in s and 'if node.repeat:\n        result = attach_repeater(result, node.repeat)' in s:
+        res.ok('convert_group: children in order; group repeater attached to the results')
+    else:
+        res.bad(F('PATH-ONCE', cg, cg.node, 'convert_group body', 'a group converts its children in order and hands its repeater to the resulting nodes'))
+    cs = p.func('abbreviation.convert.convert_statement')
+    s = src_of(cs.node)
+    need = ['repeat = clone_repeater(node.repeat)', 'state.repeaters.append(repeat)', 'result += items', 'state.repeat_guard -= 1',
+            'if state.repeat_guard <= 0:\n                break', 'i += 1', 'node.repeat = original',
+            'items = convert_group(node, state) if is_group(node) else convert_element(node, state)']
+    for w in need:
+        if w in s:
+            res.ok('convert_statement: ' + w.replace('\n', ' '))
+        else:
+            res.bad(F('PATH-ONCE', cs, cs.node, w.replace('\n', ' '), 'copy loop of convert_statement changed'))
+    # order inside the loop: result += items precedes the guard decrement and the break test
+    if all(w in s for w in need) and s.index('result += items') < s.index('state.repeat_guard -= 1') < s.index('if state.repeat_guard <= 0') < s.index('i += 1'):
+        res.ok('a copy is completed (result += items) before the repeat budget is charged and tested')
+    else:
+        res.bad(F('PATH-ONCE', cs, cs.node, 'order of result += items / repeat_guard -= 1 / break / i += 1', 'at least one copy must be emitted before the repeat limit stops the loop'))
+    st = p.cls('abbreviation.convert.ConvertState').methods['__init__']
+    if 'self.repeat_guard = max_repeat if max_repeat is not None else 1000000' in src_of(st.node):
+        res.ok('repeat_guard = max_repeat or a large default')
+    else:
+        res.bad(F('PATH-ONCE', st, st.node, 'self.repeat_guard = ...', 'the repeat budget must come from max_repeat'))
+    # text-only snippet hoisting uses the already converted attributes
+    if "if not elem.name and elem.attributes is None and elem.value and (not some(elem.value, is_field)):\n        result += elem.children\n        elem.children = []" in src_of(ce.node):
+        res.ok('text-only snippet: children become siblings')
+    else:
+        res.bad(F('PATH-ONCE', ce, ce.node, 'text-only snippet test', 'children are hoisted only for nameless, attribute-less text nodes without fields'))
+    res.require_floor(12)
+
+
+# ----------------------------------------------------------- PATH-EMIT-ATTR
+@rule('PATH-EMIT-ATTR', 'N', 'an attribute is emitted as name, =, opening quote, value, matching closing quote; the name passes through attr_name')
+def path_emit_attr(p, res):
+    f = p.func('markup.format.html.push_attribute')
+    s = src_of(f.node)
+    # quotes of one attribute: open and close from attr_quote on the same attribute, or the expression pair assigned together
+    if 'l_quote = attr_quote(attr, config, True)' in s and 'r_quote = attr_quote(attr, config, False)' in s:
+        res.ok('l_quote / r_quote = attr_quote(attr, config, True / False)')
+    else:
+        res.bad(F('PATH-EMIT-ATTR', f, f.node, 'l_quote / r_quote definitions', 'opening and closing quote must both come from attr_quote on the same attribute (open=True / False)'))
+    pm = p.parents(f)
+    lq = [n for n in f.body_nodes() if isinstance(n, ast.Assign) and src_of(n.targets[0]) == 'l_quote' and src_of(n.value) != 'attr_quote(attr, config, True)']
+    rq = [n for n in f.body_nodes() if isinstance(n, ast.Assign) and src_of(n.targets[0]) == 'r_quote' and src_of(n.value) != 'attr_quote(attr, config, False)']
+    if len(lq) == len(rq) and all(pm.get(a) is pm.get(b) and src_of(a.value) == 'expression_start' and src_of(b.value) == 'expression_end' for a, b in zip(lq, rq)):
+        res.ok('quotes are overridden only as the pair (expression_start, expression_end), together')
+    else:
+        res.bad(F('PATH-EMIT-ATTR', f, (lq + rq)[0] if (lq + rq) else f.node, ' ; '.join(src_of(x) for x in lq + rq), 'the two quotes may only be replaced together by the expression brace pair'))
+    seq = [src_of(n) for n in f.body_nodes() if isinstance(n, ast.Expr) and isinstance(n.value, ast.Call) and ('push_string' in src_of(n.value.func) or 'push_tokens' in src_of(n.value.func))]
+    want = ["out.push_string(' %s' % name)", "out.push_string('=%s' % l_quote)", 'push_tokens(value, state)', 'out.push_string(r_quote)', "out.push_string('=%s%s' % (l_quote, r_quote))"]
+    if seq == want:
+        res.ok('emission: " name" then ="  value  " (or ="" for valueless attributes in xml style)')
+    else:
+        res.bad(F('PATH-EMIT-ATTR', f, f.node, ' ; '.join(seq), 'attribute emission must be: space+name, =+opening quote, value tokens, closing quote'))
+    if 'if value:\n            out.push_string(\'=%s\' % l_quote)\n            push_tokens(value, state)\n            out.push_string(r_quote)' in s:
+        res.ok('value emitted between the quotes exactly when there is one')
+    else:
+        res.bad(F('PATH-EMIT-ATTR', f, f.node, 'if value: = l_quote value r_quote', 'the value goes between the opening and the closing quote'))
+    if s.index('name = attr_name(name, config)') < s.index("out.push_string(' %s' % name)") and s.index('name = get_multi_value(name, attributes, attr.multiple) or name') < s.index('name = attr_name(name, config)'):
+        res.ok('emitted name = attr_name(mapped name, config)')
+    else:
+        res.bad(F('PATH-EMIT-ATTR', f, f.node, 'name provenance', 'the emitted attribute name must be attr_name() of the (possibly mapped) name'))
+    if 'if not config.options.get(\'output.compactBoolean\'):\n                value = [name]' in s:
+        res.ok('boolean attribute without value: value = [name] unless compactBoolean')
+    else:
+        res.bad(F('PATH-EMIT-ATTR', f, f.node, 'boolean expansion', 'a boolean attribute expands to name="name" unless output.compactBoolean'))
+    g = p.func('markup.format.indent_format.push_secondary_attributes')
+    s = src_of(g.node)
+    seq = [src_of(n) for n in g.body_nodes() if isinstance(n, ast.Expr) and isinstance(n.value, ast.Call) and ('push_string' in src_of(n.value.func) or 'push_tokens' in src_of(n.value.func))]
+    want = ['out.push_string(before)', "out.push_string(attr_name(attr.name or '', config))", "out.push_string('=%s' % options.get('booleanValue'))",
+            "out.push_string('=%s' % attr_quote(attr, config, True))", 'push_tokens(attr.value or caret, state)', 'out.push_string(attr_quote(attr, config))',
+            'out.push_string(glue)', 'out.push_string(after)']
+    if seq == want:
+        res.ok('indent syntaxes: before, name, (=booleanValue | =open quote, value, close quote), glue, after')
+    else:
+        res.bad(F('PATH-EMIT-ATTR', g, g.node, ' ; '.join(seq), 'attribute emission of the indent formatter changed: name, =, opening quote (is_open=True), value, closing quote (is_open omitted)'))
+    if 'if i != len(attrs) - 1 and glue:' in s:
+        res.ok('glue between attributes, not after the last')
+    else:
+        res.bad(F('PATH-EMIT-ATTR', g, g.node, 'glue condition', 'glue goes between attributes only'))
+    pa = p.func('markup.format.indent_format.push_primary_attributes')
+    s = src_of(pa.node)
+    if "if attr.value is not None:" in s and "state.out.push_string('.')" in s and "state.out.push_string('#')" in s and "re.sub('\\\\s+', '.', t) if isinstance(t, str) else t" in s:
+        res.ok('primary attributes: .class (spaces -> dots) and #id, only when a value exists')
+    else:
+        res.bad(F('PATH-EMIT-ATTR', pa, pa.node, 'push_primary_attributes body', 'class is printed as .a.b and id as #x'))
+    ca = p.func('markup.format.indent_format.collect_attributes')
+    ip = p.func('markup.format.indent_format.is_primary_attribute')
+    if "return attr.name == 'class' or attr.name == 'id'" in src_of(ip.node) and 'primary.append(attr)' in src_of(ca.node) and 'secondary.append(attr)' in src_of(ca.node):
+        res.ok('class and id are primary, everything else secondary, order kept')
+    else:
+        res.bad(F('PATH-EMIT-ATTR', ca, ca.node, 'collect_attributes', 'primary = class and id; all others secondary, in order'))
+    res.require_floor(10)
